@@ -46,8 +46,9 @@ NoTruncHeader ==
 \* for activeTCPConn) is accepted, reported as written in full, and is on the wire in full
 WriterDelivers ==
   (Written /\ c.wreal) => \A i \in 1..NP : LET w == c.wr[i] IN
-     /\ c.pk[i] <= c.wmax => w.ok /\ w.ret = c.pk[i]
-     /\ (c.pk[i] <= c.wmax /\ w.ok) => w.wrote = c.pk[i] + 2
+     \* (a packet connection whose peer does not read may refuse a packet when its write buffer is full; what it accepts it delivers)
+     /\ (c.pk[i] <= c.wmax /\ ~c.stall) => w.ok
+     /\ (c.pk[i] <= c.wmax /\ w.ok) => w.ret = c.pk[i] /\ w.wrote = c.pk[i] + 2
 \* reference parse of an arbitrary byte stream
 RECURSIVE Parse(_, _)
 Parse(p, acc) == IF p + 2 > c.slen THEN acc
@@ -58,6 +59,7 @@ Parse(p, acc) == IF p + 2 > c.slen THEN acc
 \* same place on the wire where that is known), and nothing is returned from an incomplete or oversize frame
 ErrNotGarbage ==
   /\ c.res \notin {"panic", "runaway", "stuck"}
+  /\ c.note # "unaccounted bytes on the wire"       \* every byte on the wire belongs to an accepted packet
   /\ IF Written
      THEN /\ Len(c.out) <= D
           /\ \A k \in 1..Len(c.out) : LET o == c.out[k] IN
